@@ -79,6 +79,10 @@ func (r Set[V]) SubsetOf(other Set[V]) bool {
 }
 
 func (r Set[V]) Diff(other Set[V]) Set[V] {
+	if r.set == nil {
+		// the zero value is the empty set
+		return r
+	}
 	ret := r.getEmpty()
 
 	itr := r.Iterator()
@@ -92,6 +96,10 @@ func (r Set[V]) Diff(other Set[V]) Set[V] {
 	return MakeSet(r.getEmpty, ret)
 }
 func (r Set[V]) Intersect(other Set[V]) Set[V] {
+	if r.set == nil {
+		// the zero value is the empty set
+		return r
+	}
 	ret := r.getEmpty()
 
 	itr := r.Iterator()
